@@ -190,15 +190,19 @@ def S_bitwise(kind, n):
         dom = AND(lt(I[0], 1 << n), lt(I[1], 1 << n))
         xb = bits_of(e, I[0], n, dom)
         yb = bits_of(e, I[1], n, dom)
-        rb = []
-        for a, b in zip(xb, yb):
+        # the result is stated bit by bit on the (definitional) bits of the output, so that the negation is
+        # a disjunction of local facts instead of one inequality between two n-term sums
+        odom = lt(O[0], 1 << n)
+        ob = bits_of(e, O[0], n, odom)
+        per_bit = []
+        for a, b, o in zip(xb, yb, ob):
             if kind == "band":
-                rb.append(f"(ite (and (= {a} 1) (= {b} 1)) 1 0)")
+                per_bit.append(f"(= (= {o} 1) (and (= {a} 1) (= {b} 1)))")
             elif kind == "bor":
-                rb.append(f"(ite (or (= {a} 1) (= {b} 1)) 1 0)")
+                per_bit.append(f"(= (= {o} 1) (or (= {a} 1) (= {b} 1)))")
             else:
-                rb.append(f"(ite (= {a} {b}) 0 1)")
-        return AND(dom, eq(O[0], wsum(rb)))
+                per_bit.append(f"(= (= {o} 1) (not (= {a} {b})))")
+        return AND(dom, odom, *per_bit)
     return spec
 
 
